@@ -53,7 +53,7 @@ def flat_outcomes(facts, key, summ, depth=0):
                 for x in alts:
                     x["conds"].add(("valid_type", a[3]))
             elif a[0] in ("all", "any") and is_text(a[1]):
-                cs = boolsum.charset(boolsum.subst_formula(summ.summary(a[2]), {2: boolsum.CPARAM}), facts)
+                cs = boolsum.charset(boolsum.pred_formula(facts, summ, a[2]), facts)
                 for x in alts:
                     x["conds"].add((a[0], cs, a[3]))
             elif a[0] == "callres" and a[1] in facts.bodies and len(a[2]) == 1 and is_text(a[2][0]):
@@ -203,12 +203,14 @@ MANIFEST = {
 }
 
 
-def idempotence_obligations(ctx, facts, rule="IDEMP-SHAPES"):
+def idempotence_obligations(ctx, facts, rule="IDEMP-SHAPES", only=None):
     """What C10 needs from the string shapes: finish(finish(x)) = finish(x) on values that passed once.
     Weaker than SIBLING: a shape that validates differently but idempotently is not reported here."""
     summ = boolsum.Summarizer(facts)
     impls = string_shape_impls(facts)
     for st, fns in sorted(impls.items()):
+        if only is not None and not st.startswith(only):
+            continue
         k = fns.get("finish")
         if not k:
             continue
